@@ -166,8 +166,12 @@ impl Lab {
             let mut pending: Option<(AuthSession, Option<usize>, bool)> = None;
             let (_shutdown_tx, _) = tokio::sync::broadcast::channel::<()>(1);
             let mut labels = Vec::new();
+            let mut mstates: Vec<String> = Vec::new();
             let mut viol: Vec<Value> = Vec::new();
             for (step, op) in seq.iter().enumerate() {
+                if step > 0 {
+                    mstates.push(format!("{server_pw}/{last_verified:?}/{sealed_here}/{}", pending.is_some()));
+                }
                 if *op == Op::Rotate {
                     server_pw = 1 - server_pw;
                     peer.with(|s| s.password = PW[server_pw].to_string());
@@ -293,7 +297,8 @@ impl Lab {
                     }
                 }
             }
-            Ok(json!({"labels": labels, "viol": viol}))
+            mstates.push(format!("{server_pw}/{last_verified:?}/{sealed_here}/{}", pending.is_some()));
+            Ok(json!({"labels": labels, "viol": viol, "model_states": mstates}))
         });
         match out {
             Ok(v) => v,
@@ -398,12 +403,23 @@ pub fn run(args: &[String]) -> ! {
     let mut steps = 0u64;
     let mut bad = 0u64;
     let mut offline_accepts = 0u64;
+    let mut seqs_with_offline_accept = 0u64;
+    let mut model_states: std::collections::BTreeSet<String> = Default::default();
     for (k, r) in res.iter().enumerate() {
         let seq = decode(k);
         let v: Value = serde_json::from_str(r).unwrap_or_else(|_| json!({"error": format!("unreadable worker answer: {r}")}));
         if let Some(e) = v["error"].as_str() {
             ctx.machinery_error(format!("{}: {e}", seq.iter().map(op_str).collect::<Vec<_>>().join(" ")));
             continue;
+        }
+        for ms in v["model_states"].as_array().cloned().unwrap_or_default() {
+            model_states.insert(ms.as_str().unwrap_or("").to_string());
+        }
+        if v["labels"].as_array().map(|a| a.iter().any(|l| l == "accepted-offline")).unwrap_or(false) {
+            seqs_with_offline_accept += 1;
+        }
+        if k % (n / 4).max(1) == 0 {
+            ctx.sample(json!({"sequence": seq.iter().map(op_str).collect::<Vec<_>>(), "answers": v["labels"].clone()}));
         }
         for (i, l) in v["labels"].as_array().cloned().unwrap_or_default().iter().enumerate() {
             steps += 1;
@@ -425,18 +441,17 @@ pub fn run(args: &[String]) -> ! {
     if offline_accepts == 0 {
         ctx.machinery_error("vacuous: no login was ever accepted while the server was unreachable".into());
     }
-    ctx.set("sequences", n as u64);
+    ctx.set("traces_validated_against_impl", n as u64);
     ctx.set("depth", depth as u64);
-    ctx.set("evaluations", steps);
     ctx.set("transitions", steps);
-    ctx.set("states", n as u64);
-    ctx.set("distinct_nontrivial", offline_accepts);
-    ctx.set("accepted_while_unreachable", offline_accepts);
+    ctx.set("states", model_states.len() as u64 + 1);
+    ctx.set("logins_accepted_while_unreachable", offline_accepts);
+    ctx.set("distinct_nontrivial", seqs_with_offline_accept);
     ctx.set("outcomes", json!(outcomes));
     ctx.set("mismatches", bad);
     ctx.set("exhaustive", true);
     ctx.set("alphabet", json!(alpha.iter().map(op_str).collect::<Vec<_>>()));
-    ctx.set("rule", format!("every sequence of exactly {depth} operations over the alphabet that does not start with a login while unreachable and does not end with an operation that is no login{} (shorter sequences are prefixes and are judged step by step); plus the interleaved family [first login, open a login while unreachable, one operation, answer the open login, a login while unreachable], each on a machine whose cache has been emptied (real Resolver, KanidmProvider, software TPM with its own machine key, cache database on disk; one machine per worker process, reused between sequences) talking to a scripted identity server over TCP; the second machine of `transplant` has its own TPM, machine key and database", ""));
+    ctx.set("rule", format!("every sequence of exactly {depth} operations over the alphabet that does not start with a login while unreachable and does not end with an operation that is no login{} (shorter sequences are prefixes and are judged step by step); plus the interleaved family [first login, open a login while unreachable, one operation, answer the open login, a login while unreachable], states = distinct states of the reference model reached (server password / last confirmed password / sealed here / a login open); non-trivial = sequences with at least one login accepted while unreachable; each on a machine whose cache has been emptied (real Resolver, KanidmProvider, software TPM with its own machine key, cache database on disk; one machine per worker process, reused between sequences) talking to a scripted identity server over TCP; the second machine of `transplant` has its own TPM, machine key and database", ""));
     ctx.assume("one-directional, as the statement is: an acceptance that the identity server did not confirm in that very login must be for the password the server most recently confirmed to this machine, and the cached credential must have been sealed on this machine; refusals are never judged");
     ctx.assume("the identity server is a scripted HTTP peer implementing /v1/self, /_unix/_token and /_unix/_auth; the TPM is kanidm-hsm-crypto's software TPM (a hardware TPM is not available here); `another machine` = another TPM instance with another machine key");
     ctx.finish();
